@@ -13,9 +13,9 @@ RULE = ("two kinds of cases. plain (2 of 3): random histories of 3-60 operations
         "reset (1 of 3): the real ResettableKeystore inside a testing/synctest bubble, every datastore call made on behalf of ResetCids "
         "parked at a gate; 0-3 puts before, optionally a first undisturbed reset, then ResetCids with 0-11 keys fed one by one, ticker "
         "firings, 1-6 concurrent puts placed at random gates of every phase (bulk, refresh, catch-up, final drain, marker, teardown), "
-        "optionally one failing datastore call (commit/sync/query/has of the alternate slot, marker put, marker sync), a cancellation "
+        "optionally one failing datastore call (commit/sync/query/has of the alternate slot, the write of a ticker-driven drain of the put buffer, marker put, marker sync), a cancellation "
         "or a Close at a random gate, a put afterwards, Close; then a keystore is reopened on EVERY prefix of the journal and compared "
-        "with the allowed sets. three fixed scenarios (same key put twice after phase B; failing marker write; cancellation during "
+        "with the allowed sets. four fixed scenarios (same key put twice after phase B; failing marker write; failing ticker-driven drain with puts buffered; cancellation during "
         "opStart: the defects fixed by 47a8290, bdb3b1c, 83723a5) are part of every run. distinct = distinct (kind, branch set, size class) signatures")
 TRUSTED = [
     "the harness' in-memory datastore (insertion-ordered map + journal + sync points + fault injection + gates) and go-datastore's "
